@@ -263,7 +263,7 @@ pub fn judge_step(
             Out::Complete(s) => {
                 if s.data != *payload {
                     f.push((
-                        vec!["C05", "C06"],
+                        vec!["C05", "C06", "C07"],
                         "asm.wrong-payload".into(),
                         format!(
                             "delivered payload {:?} is not the in-order concatenation {:?}",
@@ -318,6 +318,36 @@ pub fn judge_step(
                     "asm.capacity-not-enforced".into(),
                     format!("input exceeding the fixed capacity was accepted: {}", out.show()),
                 ));
+            }
+        }
+        Expect::EmbeddedStar { xor_first, transmitted_structural, transmitted_after_first } => {
+            match out {
+                Out::Complete(_) | Out::Incomplete(_) => {
+                    let ok = xor_first == transmitted_structural || Some(*xor_first as u32) == *transmitted_after_first;
+                    if !ok {
+                        f.push((
+                            vec!["C02"],
+                            "asm.accepts-bad-checksum-embedded-star".into(),
+                            format!(
+                                "accepted although the XOR of the bytes up to the first '*' ({:#04x}) equals neither the value after the checksum delimiter ({:#04x}) nor the value after the first '*' ({:?})",
+                                xor_first, transmitted_structural, transmitted_after_first
+                            ),
+                        ));
+                    }
+                }
+                Out::Err(ErrCat::Checksum { found, .. }) => {
+                    if found != xor_first {
+                        f.push((
+                            vec!["C02"],
+                            "asm.checksum-values-embedded-star".into(),
+                            format!("checksum error reports computed value {:#04x}, but the XOR up to the first '*' is {:#04x}", found, xor_first),
+                        ));
+                    }
+                }
+                _ => {}
+            }
+            if matches!(out, Out::Err(_)) && !unchanged {
+                f.push((vec!["C17"], "asm.trace-after-reject".into(), format!("parser state changed by a rejected line: {} -> {}", debug_before, debug_after)));
             }
         }
         Expect::Unjudged(_) => {
